@@ -1252,17 +1252,23 @@ impl qbice_stable_type_id::Identifiable for NExpr { const STABLE_TYPE_ID: qbice_
 
 /// one traversal: renders the value (handles print their hash, or — `classes` — the pre-order index of the first
 /// occurrence of their allocation) and lists every handle occurrence in pre-order: (type id, pointer, hash rendering)
-pub struct NCx<'a> { it: &'a Interner, classes: bool, occ: Vec<(u32, usize, String)> }
+/// `marks`: a handle that is not the allocation the interner holds under its hash (a private `new_duplicating` copy) prints
+/// `d` instead of `h`; `occ.3` says so for every occurrence
+thread_local! { static DUP_IDS: RefCell<Vec<usize>> = RefCell::new(vec![]); }
+fn dup_id(ptr: usize) -> usize { DUP_IDS.with(|d| { let mut d = d.borrow_mut(); match d.iter().position(|p| *p == ptr) { Some(i) => i, None => { d.push(ptr); d.len() - 1 } } }) }
+pub struct NCx<'a> { it: &'a Interner, classes: bool, occ: Vec<(u32, usize, String, bool)>, marks: bool }
 pub trait NShape { fn nty() -> String; fn nrender(&self, cx: &mut NCx) -> String; }
 pub trait NPay { const TID: u32; fn pay_render(&self, cx: &mut NCx) -> String; }
-impl<T: NPay + StableHash + ?Sized> NShape for Interned<T> {
+impl<T: NPay + StableHash + qbice_stable_type_id::Identifiable + Send + Sync + 'static + ?Sized> NShape for Interned<T> {
     fn nty() -> String { format!("H{}", T::TID) }
     fn nrender(&self, cx: &mut NCx) -> String {
         let ptr = (&**self) as *const T as *const u8 as usize;
+        let h128 = cx.it.hash_128(&**self);
+        let dup = match cx.it.get_from_hash::<T>(h128) { Some(r) => ((&*r) as *const T as *const u8 as usize) != ptr, None => true };
         let i = cx.occ.len();
-        cx.occ.push((T::TID, ptr, String::new()));
+        cx.occ.push((T::TID, ptr, String::new(), dup));
         let pay = self.pay_render(cx);
-        let hashed = format!("h{}{{{}}}", cx.it.hash_128(&**self).to_u128(), pay);
+        let hashed = if cx.marks && dup { format!("d{}_{}{{{}}}", dup_id(ptr), h128.to_u128(), pay) } else { format!("h{}{{{}}}", h128.to_u128(), pay) };
         if cx.classes {
             let cls = cx.occ.iter().position(|o| o.0 == T::TID && o.1 == ptr).unwrap_or(i);
             format!("h{}{{{}}}", cls, pay)
@@ -1302,7 +1308,7 @@ impl NPool {
         let mut depth_of: Vec<usize> = vec![];
         for _ in 0..rng.range(1, 7) {
             let mut kids = vec![]; let mut size = 1usize; let mut d = 1usize;
-            for _ in 0..rng.below(4) { if p.nodes.is_empty() { break; } let i = if rng.chance(1, 2) { p.nodes.len() - 1 } else { rng.below(p.nodes.len() as u64) as usize }; let (k, s) = &p.nodes[i]; if size + s <= NCAP { kids.push(k.clone()); size += s; d = d.max(depth_of[i] + 1); } }
+            for _ in 0..rng.below(4) { if p.nodes.is_empty() { break; } let i = if rng.chance(1, 2) { p.nodes.len() - 1 } else { rng.below(p.nodes.len() as u64) as usize }; let (k, s) = &p.nodes[i]; if size + s <= NCAP { kids.push(if mk.it.is_some() && rng.chance(1, 20) { Interned::new_duplicating((**k).clone()) } else { k.clone() }); size += s; d = d.max(depth_of[i] + 1); } }
             let name = if rng.chance(1, 2) { size += 1; Some(rng.pick(&p.strs).clone()) } else { None };
             let n = NNode { label: rng.below(3) as u16, kids, name, note: (*rng.pick(&["", "n"])).to_string() };
             p.nodes.push((mk.sized(n), size)); depth_of.push(d); p.depth = p.depth.max(d);
@@ -1340,12 +1346,13 @@ impl NTop for N2 { fn from_pool(p: &NPool, rng: &mut Rng) -> Self { (p.node(rng)
 impl NTop for N3 { fn from_pool(p: &NPool, rng: &mut Rng) -> Self { (0..rng.below(5)).map(|_| { let e: &NExpr = &rng.pick(&p.exprs).0; e.clone() }).collect() } }
 impl NTop for N4 { fn from_pool(p: &NPool, rng: &mut Rng) -> Self { (rng.pick(&p.slices).0.clone(), p.node(rng), rng.next() as u32, rng.pick(&p.strings).clone()) } }
 
-/// Finding F61 (kept as a regression input, run first in shard 0 of every run): the decoder-side interner holds a live
+/// Finding F61 (fixed by /repo F61COMMIT; regression input that must PASS, run first in shard 0 of every run): the decoder-side interner holds a live
 /// value `e` whose inner handle is an `Interned::new_duplicating` copy (public API; "doesn't guarantee deduplication").
 /// Decoding `encode((e, intern(leaf)))` after the tuple was dropped: the decoder interns the inner value it reads (a
 /// fresh allocation, nothing equal is registered), `intern(outer)` returns the live `e` and drops the decoded payload —
-/// the only owner of that allocation —, and the reference to the inner value that follows misses: `expect` panics.
-/// This is the boundary of hypothesis `IOk` of `interned_roundtrip_nested` (every live entry is canonical).
+/// before the fix the only owner of that allocation, so the reference to the inner value that followed missed and `expect`
+/// panicked; since the fix the decode session keeps every produced handle alive.  Model: `dec true` / `dec false`,
+/// theorem `interned_roundtrip_nested_weak` (hypothesis `IOkW`: no canonicity of the live entries required).
 fn nested_boundary_probe(st: &mut Stats) {
     let it = Interner::new(4, MaskedBuilder { seed: 7, mask: u128::MAX });
     let mut plugin = Plugin::new(); plugin.insert(it.clone());
@@ -1368,6 +1375,7 @@ fn nested_boundary_probe(st: &mut Stats) {
 }
 
 fn nested_case<S: NTop>(out: &mut Out, st: &mut Stats, rng: &mut Rng) {
+    DUP_IDS.with(|d| d.borrow_mut().clear());
     let warm = rng.chance(1, 3);
     let mask: u128 = if !warm && rng.chance(1, 6) { 0x3 } else { u128::MAX };
     let hb = MaskedBuilder { seed: rng.next(), mask };
@@ -1380,11 +1388,16 @@ fn nested_case<S: NTop>(out: &mut Out, st: &mut Stats, rng: &mut Rng) {
     let v = S::from_pool(&pool, rng);
     let depth = pool.depth;
     if rng.chance(1, 2) { drop(pool); }   // the value alone keeps its parts alive / other equal values are alive too
-    let mut cx = NCx { it: &enc_it, classes: false, occ: vec![] };
+    let mut cx = NCx { it: &enc_it, classes: false, occ: vec![], marks: false };
     let val = v.nrender(&mut cx);
     let occ = cx.occ;
     let (bytes, recs) = trace_real(&v, &enc_plugin);
     let mode = if warm { "warm" } else { "fresh" };
+    // warm: the op text says which handles are private copies (`Interned::new_duplicating`, ~5 % of the kids): the live
+    // value that holds one is a non-canonical entry of the decoder-side interner
+    let val_cmp = val.clone();
+    let val = if warm { let mut cm = NCx { it: &enc_it, classes: false, occ: vec![], marks: true }; v.nrender(&mut cm) } else { val };
+    if occ.iter().any(|o| o.3) && warm { Stats::bump(&mut st.classes, "nested-warm-with-new_duplicating-inner-handle"); }
     let ty = S::nty();
     // hypothesis of `interned_roundtrip_nested`: equal (type id, hash) only for equal payloads (the hash is part of the rendering)
     let hash_of = |r: &String| r[1..r.find('{').unwrap()].to_string();
@@ -1425,14 +1438,14 @@ fn nested_case<S: NTop>(out: &mut Out, st: &mut Stats, rng: &mut Rng) {
         let mut extra = "-".to_string();
         let (imp_o, bad): (String, Option<(&str, String)>) = match &r {
             Ok(d) => {
-                let mut c2 = NCx { it: &dec_it, classes: true, occ: vec![] };
+                let mut c2 = NCx { it: &dec_it, classes: true, occ: vec![], marks: false };
                 let shown = d.nrender(&mut c2);
                 let docc = c2.occ;
-                if mask != u128::MAX { let mut c3 = NCx { it: &dec_it, classes: false, occ: vec![] }; extra = d.nrender(&mut c3); }
+                if mask != u128::MAX { let mut c3 = NCx { it: &dec_it, classes: false, occ: vec![], marks: false }; extra = d.nrender(&mut c3); }
                 let same_shape = docc.len() == occ.len() && docc.iter().zip(occ.iter()).all(|(a, b)| a.0 == b.0);
                 let bad = if *d != v || !same_shape { Some(("nested:roundtrip", "decoded value differs from the original".to_string())) }
                     else if consumed != bytes.len() { Some(("nested:consumed", format!("consumed {consumed} of {} bytes", bytes.len()))) }
-                    else if let Some((i, k)) = (0..occ.len()).flat_map(|i| (0..occ.len()).map(move |k| (i, k))).find(|(i, k)| occ[*i].0 == occ[*k].0 && (docc[*i].1 == docc[*k].1) != (occ[*i].2 == occ[*k].2)) {
+                    else if let Some((i, k)) = (0..occ.len()).flat_map(|i| (0..occ.len()).map(move |k| (i, k))).find(|(i, k)| occ[*i].0 == occ[*k].0 && !docc[*i].3 && !docc[*k].3 && (docc[*i].1 == docc[*k].1) != (occ[*i].2 == occ[*k].2)) {
                         Some(("nested:sharing", format!("handle occurrences {i} and {k} (pre-order) of type {}: equal values {} but same allocation {}", occ[i].0, occ[i].2 == occ[k].2, docc[i].1 == docc[k].1))) }
                     else if let Some(i) = (0..occ.len()).find(|i| occ[*i].0 != occ[0].0 && docc[*i].1 == docc[0].1 && occ[0].0 < 2 && occ[*i].0 < 2) { Some(("nested:types-share", format!("occurrence {i} shares an allocation with a handle of another type"))) }
                     else if warm && docc.iter().zip(occ.iter()).any(|(a, b)| a.1 != b.1) { Some(("nested:not-canonical", "decoding through the encoder's interner did not return the live originals".to_string())) }
@@ -1440,7 +1453,7 @@ fn nested_case<S: NTop>(out: &mut Out, st: &mut Stats, rng: &mut Rng) {
                         // decoding the same bytes again while the first result is alive: the same allocations
                         let mut dec2 = Guard::new(&stream[..], vlimit());
                         match decode_real::<S>(&mut dec2, &dec_plugin) {
-                            Ok(d2) => { let mut c4 = NCx { it: &dec_it, classes: true, occ: vec![] }; let _ = d2.nrender(&mut c4);
+                            Ok(d2) => { let mut c4 = NCx { it: &dec_it, classes: true, occ: vec![], marks: false }; let _ = d2.nrender(&mut c4);
                                 if d2 != *d || c4.occ.iter().zip(docc.iter()).any(|(a, b)| a.1 != b.1) { Some(("nested:second-decode", "a second decode through the same interner did not return the first one's allocations".to_string())) } else { None } }
                             Err(o) => Some(("nested:second-decode", format!("a second decode through the same interner failed: {}", o.show()))),
                         }
@@ -1462,7 +1475,7 @@ fn nested_case<S: NTop>(out: &mut Out, st: &mut Stats, rng: &mut Rng) {
         let r = decode_real::<S>(&mut dec, &dec_plugin);
         if dec.tripped { st.guard_skipped += 1; return; }
         let consumed = stream.len() - dec.remaining();
-        let imp_o = match &r { Ok(d) => { let mut c2 = NCx { it: &dec_it, classes: true, occ: vec![] }; format!("ok|{}|{}", d.nrender(&mut c2), consumed) } Err(o) => o.show() };
+        let imp_o = match &r { Ok(d) => { let mut c2 = NCx { it: &dec_it, classes: true, occ: vec![], marks: false }; format!("ok|{}|{}", d.nrender(&mut c2), consumed) } Err(o) => o.show() };
         Stats::bump(&mut st.classes, &format!("nested-mutated-{}", imp_o.split('|').next().unwrap()));
         st.line(out, "nested", &format!("O|{}|{}|{}|{}|{}", mode, NENV, ty, val, hex(&stream)), &imp_o, true);
     }
@@ -1519,6 +1532,7 @@ impl HVal {
 const HENV: &str = "0=T(Pu16,S(H0),O(H2),Pstr);1=E(T(),T(H0),T(H1,Pu16),T(H1,H1),T(H3),T(H4));2=Pstr;3=Pstr;4=S(H0);5=Pu64;6=Pseq(u16);7=Pseq(u32);8=Pstr";
 struct HSlot { kind: u8, ty: String, val: String, bytes: Vec<u8>, orig: Option<HVal> }
 fn history_case(out: &mut Out, st: &mut Stats, rng: &mut Rng) {
+    DUP_IDS.with(|d| d.borrow_mut().clear());
     let it = Interner::new(4, MaskedBuilder { seed: rng.next(), mask: u128::MAX });
     let mut plugin = Plugin::new(); plugin.insert(it.clone());
     let mut steps: Vec<String> = vec![];
@@ -1528,7 +1542,7 @@ fn history_case(out: &mut Out, st: &mut Stats, rng: &mut Rng) {
         let pool = NPool::build(rng, &mk);
         for i in 0..rng.range(1, 3) {
             let v = HVal::build(rng, &it, &pool);
-            let mut cx = NCx { it: &it, classes: false, occ: vec![] };
+            let mut cx = NCx { it: &it, classes: false, occ: vec![], marks: false };
             let val = v.render(&mut cx);
             let bytes = v.encode(&plugin);
             steps.push(format!("v{i}={}:{} enc v{i}", v.nty(), val));
@@ -1550,10 +1564,11 @@ fn history_case(out: &mut Out, st: &mut Stats, rng: &mut Rng) {
                 let mut alive: HashMap<(u32, String), usize> = HashMap::new();
                 let mut kept_s: Vec<String> = vec![];
                 for (s, v) in slots.iter().filter_map(|s| s.orig.as_ref().map(|v| (s, v))).chain(kept.iter().map(|(i, v)| (&slots[*i], v))) {
-                    let mut cx = NCx { it: &it, classes: false, occ: vec![] };
+                    let mut cx = NCx { it: &it, classes: false, occ: vec![], marks: false };
                     let _ = v.render(&mut cx);
-                    for (t, p, r) in cx.occ { alive.insert((t, r), p); }
-                    kept_s.push(format!("{}~{}", s.ty, s.val));
+                    for (t, p, r, dup) in cx.occ { if !dup { alive.insert((t, r), p); } }
+                    let mut cm = NCx { it: &it, classes: false, occ: vec![], marks: true };
+                    kept_s.push(format!("{}~{}", s.ty, v.render(&mut cm)));
                 }
                 let s = &slots[i];
                 let j = junk(rng);
@@ -1566,16 +1581,16 @@ fn history_case(out: &mut Out, st: &mut Stats, rng: &mut Rng) {
                 let hist = format!("history on one interner: {} ; op {}", steps.join(" ; "), op);
                 let (imp_o, bad): (String, Option<(&str, String)>) = match &r {
                     Ok(d) => {
-                        let mut c1 = NCx { it: &it, classes: false, occ: vec![] };
+                        let mut c1 = NCx { it: &it, classes: false, occ: vec![], marks: false };
                         let dval = d.render(&mut c1);
                         let docc = c1.occ;
-                        let mut c2 = NCx { it: &it, classes: true, occ: vec![] };
+                        let mut c2 = NCx { it: &it, classes: true, occ: vec![], marks: false };
                         let shown = d.render(&mut c2);
                         let bad = if dval != s.val { Some(("interned-history:roundtrip", format!("decoded {dval}"))) }
                             else if consumed != s.bytes.len() { Some(("interned-history:consumed", format!("consumed {consumed} of {}", s.bytes.len()))) }
-                            else if let Some((a, b)) = (0..docc.len()).flat_map(|a| (0..docc.len()).map(move |b| (a, b))).find(|(a, b)| docc[*a].0 == docc[*b].0 && (docc[*a].1 == docc[*b].1) != (docc[*a].2 == docc[*b].2)) {
+                            else if let Some((a, b)) = (0..docc.len()).flat_map(|a| (0..docc.len()).map(move |b| (a, b))).find(|(a, b)| docc[*a].0 == docc[*b].0 && !docc[*a].3 && !docc[*b].3 && (docc[*a].1 == docc[*b].1) != (docc[*a].2 == docc[*b].2)) {
                                 Some(("interned-history:sharing", format!("occurrences {a} and {b}: equal values {} but same allocation {}", docc[a].2 == docc[b].2, docc[a].1 == docc[b].1))) }
-                            else if let Some(o) = docc.iter().find(|o| alive.get(&(o.0, o.2.clone())).map_or(false, |p| *p != o.1)) { Some(("interned-history:not-canonical", format!("a decoded handle of type {} is not the allocation of the equal live value", o.0))) }
+                            else if let Some(o) = docc.iter().find(|o| !o.3 && alive.get(&(o.0, o.2.clone())).map_or(false, |p| *p != o.1)) { Some(("interned-history:not-canonical", format!("a decoded handle of type {} is not the allocation of the equal live value", o.0))) }
                             else { None };
                         (format!("ok|{}|{}", shown, consumed), bad)
                     }
